@@ -46,6 +46,22 @@ def run(chk):
     colls.append(["A" * 400, "", "A" * 399 + "C"])
     weights = [(1, 1, 1), (1, 2, 1), (3, 1, 2), (1, 1, 5), (2, 3, 50), (7, 7, 7), (50, 1, 1), (1, 50, 20), (2, 2, 2)]
     ops, checks = [], []
+    # every run: weight triples whose gap weights share a factor the substitution weight lacks, and substitution weights strictly
+    # between one and two gap weights (substitutions are then neither free, nor an insertion + deletion, nor a multiple of the unit)
+    mixed = [(2, 2, 3), (2, 4, 3), (3, 3, 4), (2, 2, 1), (3, 3, 5), (4, 4, 7), (6, 4, 5), (2, 2, 5)]
+    small = ["CAT", "CAG", "CA", "TTTT", "", "GAT", "CATCAT", "TAC"]
+    for (wi, wd, ws) in mixed:
+        metric = WeightedLevenshtein(insertion_weight=wi, deletion_weight=wd, substitution_weight=ws)
+        mf = {"metric": "wlev", "wi": wi, "wd": wd, "ws": ws}
+        xs_, ys_ = rng.sample(small, 5), rng.sample(small, 4)
+        meta = {"xs": xs_, "ys": ys_, "w": [wi, wd, ws]}
+        ops.append({"op": "cdist_mat", "as": xs_, "bs": ys_, **mf})
+        checks.append(("cdist", meta, core.call_real(lambda: np.asarray(metric.calc_cdist_matrix(xs_, ys_)))))
+        ops.append({"op": "pdist_vec", "xs": xs_, **mf})
+        checks.append(("pdist", meta, core.call_real(lambda: np.asarray(metric.calc_pdist_vector(xs_)))))
+        # the SAME object on both sides (every cell, also below the diagonal: with unequal gap weights the matrix is not symmetric)
+        ops.append({"op": "cdist_mat", "as": xs_, "bs": xs_, **mf})
+        checks.append(("cdist-same-object", {**meta, "ys": "the same object as xs"}, core.call_real(lambda: np.asarray(metric.calc_cdist_matrix(xs_, xs_)))))
     for xs in colls:
         ys = rng.choice(colls)
         big = max(len(s) for s in xs + ys) > 100
@@ -71,6 +87,9 @@ def run(chk):
             # squareform consistency of the REAL vector with the REAL square matrix (valid input for linkage/squareform)
             if rc[0] == "ok" and rp[0] == "ok" and len(xs) >= 2:
                 sq = core.call_real(lambda: np.asarray(metric.calc_cdist_matrix(xs, xs)))
+                if not big:
+                    ops.append({"op": "cdist_mat", "as": xs, "bs": xs, **mf})
+                    checks.append(("cdist-same-object", {**meta, "ys": "the same object as xs"}, sq))
                 m = len(xs)
                 okl = all(rp[1][m * i + j - ((i + 2) * (i + 1)) // 2] == sq[1][i, j] for i in range(m) for j in range(i + 1, m))
                 if not okl or len(rp[1]) != m * (m - 1) // 2:
@@ -135,6 +154,12 @@ def run(chk):
             checks.append(("pdist-fn-series", meta, core.call_real(lambda: np.asarray(ds.pdist(sx)))))
             ops.append({"op": "cdist_mat", "as": xs, "bs": ys, "metric": "lev"})
             checks.append(("cdist-fn-series", meta, core.call_real(lambda: np.asarray(ds.cdist(sx, sy)))))
+        # the same collection on both sides (the same object, and an equal copy): every cell, the zero diagonal included
+        if xs:
+            ops.append({"op": "cdist_mat", "as": xs, "bs": xs, "metric": "lev"})
+            checks.append(("cdist-fn-same-object", meta, core.call_real(lambda: np.asarray(ds.cdist(xs, xs)))))
+            ops.append({"op": "cdist_mat", "as": xs, "bs": xs, "metric": "lev"})
+            checks.append(("cdist-fn-equal-copy", meta, core.call_real(lambda: np.asarray(ds.cdist(xs, list(xs))))))
         # default metric of the helpers is Levenshtein
         ops.append({"op": "pdist_loop", "xs": xs, "metric": "lev"})
         checks.append(("pdist-fn-default", meta, core.call_real(lambda: np.asarray(ds.pdist(xs)))))
